@@ -149,6 +149,7 @@ def run(ctx):
     prefix_rules(C, P)
     C.rule('C04-MUST-exact', 'AutosarModel::get_element_by_path passes its argument unchanged to the index lookup')
     lookup_rules(C, P)
+    removal_path_rule(C, P)
     # ---- model roles in the cross-model move -----------------------------------------------------
     mf = P.get('ElementRaw::move_element_full')
     dst = [l for l, n in mf.names.items() if n == 'model' and l <= mf.argc]
@@ -399,6 +400,33 @@ def lookup_rules(C, P):
     ok = bool(gets) and bool(pidx) and all(len(t['args']) > 1 and is_param_itself(ge, t['args'][1], pidx[0]) for pos, t in gets)
     C.check(ok, 'C04-MUST-exact', 'get_element_by_path|key-is-the-argument', 'get_element_by_path looks the index up with a text derived from its argument instead of the argument itself: a text that is not the path of any element '
             '(e.g. with a trailing slash) returns an element', ge.where(gets[0][0]) if gets else '%s:%d' % (ge.file, ge.line), sample={'fn': 'get_element_by_path', 'lookups': len(gets), 'key': 'the path parameter itself'})
+
+
+def removal_path_rule(C, P):
+    """remove_sub_element hands remove_internal the path of the parent on every path: the removed element need not be identifiable
+    itself for its identifiable DESCENDANTS to be unregistered under <parent path>/<their names>"""
+    from flow import strict_source_roots
+    rs = P.get('ElementRaw::remove_sub_element')
+    ri = [(pos, t) for pos, t in rs.iter_calls() if call_matches(t, r'ElementRaw>?::remove_internal$')]
+    ok = bool(ri)
+    why = ''
+    for pos, t in ri:
+        pa = [a for a in t['args'] if is_local_op(a) and 'Cow<' in (rs.local_ty(a['l']) or '')]
+        if not pa:
+            ok = False
+            continue
+        roots = strict_source_roots(rs, pa[0])
+        n_, c_, f_ = deep_sources_(rs, pa[0])
+        if any(r[0] == 'const' for r in roots) or not any(c.endswith('path_unchecked') or c.endswith('::path') for c in c_):
+            ok = False
+            why = 'constant text among its origins' if any(r[0] == 'const' for r in roots) else 'not derived from path_unchecked()'
+    C.check(ok, 'C04-PAIR-index', 'remove_sub_element|removal-path-is-the-parent-path', 'remove_sub_element does not hand the parent path to remove_internal on every path (%s): the identifiable descendants of a removed non-identifiable '
+            'container are unregistered under a wrong key and stay in the index' % why, rs.where(ri[0][0]) if ri else '%s:%d' % (rs.file, rs.line), sample={'fn': 'remove_sub_element', 'path_arg': 'Cow::from(self.path_unchecked()?)'})
+
+
+def deep_sources_(b, o):
+    from flow import deep_sources
+    return deep_sources(b, o, depth=14)
 
 
 def prefix_rules(C, P):
